@@ -86,6 +86,7 @@ type Config struct {
 	FinalTimeout  time.Duration
 	Deadline      time.Time
 	Params        map[string]int
+	Primary       solverName
 }
 
 type Engine struct {
@@ -110,7 +111,17 @@ func (w *Worker) ensureSolver() {
 		if w.solver != nil {
 			w.solver.Close()
 		}
-		s, err := NewSolver(SolverZ3, w.eng.cfg.QueryTimeout)
+		kind := SolverCVC5
+		if w.eng.cfg.Primary != "" {
+			kind = w.eng.cfg.Primary.kind()
+		}
+		switch os.Getenv("SYMGO_SOLVER") {
+		case "z3-new":
+			kind = SolverZ3New
+		case "cvc5":
+			kind = SolverCVC5
+		}
+		s, err := NewSolver(kind, w.eng.cfg.QueryTimeout)
 		if err != nil {
 			panic(err)
 		}
@@ -152,6 +163,7 @@ type Path struct {
 	fnSeen      map[*ssa.Function]bool
 	onceDone    map[*value]bool
 	fmtDepth    int
+	stack       []*ssa.Function
 	initDepth   int
 	pollLimit   int
 	pollCount   int
@@ -217,7 +229,11 @@ func (p *Path) check(c *Term) (string, Model) {
 	fmt.Fprintf(&w.prn.sb, "(push 1)\n(assert %s)\n", r)
 	w.solver.Send(w.prn.sb.String())
 	w.prn.sb.Reset()
+	tq := time.Now()
 	res := w.solver.CheckSat()
+	if d := time.Since(tq); d > time.Second && os.Getenv("SYMGO_SLOW") != "" {
+		fmt.Fprintf(os.Stderr, "slow query %.1fs -> %s at %s (pc=%d)\n", d.Seconds(), res, p.where(), p.npc)
+	}
 	var m Model
 	if res == "sat" {
 		var ok bool
@@ -377,6 +393,36 @@ func (p *Path) concretize(t *Term, what string) uint64 {
 		p.decisions = append(p.decisions, d)
 		return v
 	}
+}
+
+// chooseValue splits on a fresh, otherwise unconstrained variable v < n:
+// all n alternatives are enqueued at once (no solver call is needed).
+func (p *Path) chooseValue(v *Term, n uint64) uint64 {
+	if n == 0 {
+		panic(abortPath{"infeasible", "verifChoose(0)"})
+	}
+	if p.pos < len(p.prefix) {
+		d := p.prefix[p.pos]
+		p.pos++
+		p.decisions = append(p.decisions, d)
+		p.addPC(p.tc.Eq(v, Const(v.S, d.Val)))
+		return d.Val
+	}
+	for i := uint64(1); i < n; i++ {
+		alt := append(append([]Decision{}, p.decisions...), Decision{Taken: true, HasVal: true, Val: i})
+		m := make(Model, len(p.tc.vars))
+		copy(m, p.model)
+		m[v.C] = i
+		p.newItems = append(p.newItems, &WorkItem{Prefix: alt, Model: m})
+	}
+	for len(p.model) < len(p.tc.vars) {
+		p.model = append(p.model, 0)
+	}
+	p.model[v.C] = 0
+	p.newEval()
+	p.decisions = append(p.decisions, Decision{Taken: true, HasVal: true, Val: 0})
+	p.addPC(p.tc.Eq(v, Const(v.S, 0)))
+	return 0
 }
 
 func (p *Path) inconclusive(reason string) {
@@ -670,4 +716,18 @@ func sortedKeys[V any](m map[string]V) []string {
 	}
 	sort.Strings(ks)
 	return ks
+}
+
+type solverName string
+
+func (n solverName) kind() SolverKind {
+	switch n {
+	case "z3-new":
+		return SolverZ3New
+	case "cvc5":
+		return SolverCVC5
+	case "cvc5-int":
+		return SolverCVC5Int
+	}
+	return SolverZ3
 }
